@@ -31,6 +31,16 @@ Limb(b, j) == FromBE(SubSeq(b, 32 * (j - 1) + 1, 32 * j))
 Deser12(b) == << Limb(b, 12), Limb(b, 8), Limb(b, 4), Limb(b, 10), Limb(b, 6), Limb(b, 2),
                  Limb(b, 11), Limb(b, 7), Limb(b, 3), Limb(b, 9), Limb(b, 5), Limb(b, 1) >>
 ASSUME \A i \in 1..12 : SerOrder[ << 12, 8, 4, 10, 6, 2, 11, 7, 3, 9, 5, 1 >>[i] ] = i
+\* the signed-digit expansion of 6t+2 used by the code's first Miller loop (2 stands for -1; an implicit leading 1 precedes it)
+LoopDigitsC == << 0,0,1,0,0,0,0,0,0,0,0,0,0,0,0,0,0,0,0,0,0,0,0,0,0,0,0,0,0,0,0,0,0,0,0,0,0,0,0,1,0,0,0,0,1,0,1,1,0,0,0,2,0,2,0,0,1,0,1,0,0,0,0,2,0 >>
+ASSUME FoldLeft(LAMBDA acc, d : IF d = 2 THEN BSub(BAdd(acc, acc), <<1>>) ELSE BAdd(BAdd(acc, acc), N(d)), <<1>>, LoopDigitsC) = LoopN
+HalfQ == FQ!FInv(<<2>>)
+Pi1C == CFrob                                                      \* w^(q-1): the twist Frobenius scales z by it
+Pi2C == FQ!FMul(CFrob, CFrob)
+MA == INSTANCE MillerAlgo WITH FAdd <- FQ!FAdd, FSub <- FQ!FSub, FMul <- FQ!FMul, FInv <- FQ!FInv, FZero <- <<>>, FOne <- <<1>>,
+                               A2 <- E2!Add, S2 <- E2!Sub, M2 <- E2!Mul, I2 <- E2!Inv, Z2 <- E2!Zero, O2 <- E2!One,
+                               XMul <- X!Mul, XInv <- X!Inv, XOne <- X!One,
+                               Half <- HalfQ, Pi1 <- Pi1C, Pi2 <- Pi2C, LoopDigits <- LoopDigitsC, LoopBits <- LoopBitsC
 Pair(P, Qt) == PR!Pair(P, Qt)
 GT == PR!Pair(P1, P2)                                             \* e(P1, P2), computed once
 GtPowN(g, k) == X!Pow(g, BBitsMSB(k))
